@@ -339,9 +339,13 @@ func c14Pool(c *run.Ctx, r *gen.RNG) {
 	for i := 0; i < steps; i++ {
 		k := r.Intn(len(pool))
 		m := &pool[k]
-		switch r.Intn(5) {
+		switch r.Intn(7) {
 		case 0: // decode a frame into an existing packet of the same Go type
-			a := gen.Packet(r, pickType(m.t), gen.RandomMask(r, pickType(m.t)), gen.Small, wfDomain)
+			a := gen.Packet(r, pickType(m.t), gen.RandomMask(r, pickType(m.t)), gen.Small, gen.Domain{})
+			if a.Type == ref.TConnect && r.Chance(2, 3) {
+				// other protocol names and versions than the default the NewConnect() values share
+				a.ProtoName, a.ProtoVer = altProtoNames[r.Intn(len(altProtoNames))], gen.Pick[byte](r, 3, 4, 5)
+			}
 			f, _ := ref.Encode(a)
 			h, _ := ref.ParseHeader(f)
 			body := f[h.HdrLen:]
@@ -397,6 +401,31 @@ func c14Pool(c *run.Ctx, r *gen.RNG) {
 			}
 			c.Eval(1)
 			if !check(k, "fresh-decode") {
+				return
+			}
+		case 5, 6: // a frame no well-behaved peer sends: foreign properties, bodies under another type nibble
+			var f []byte
+			if r.Bool() {
+				t := gen.AllTypes[r.Intn(15)]
+				a := gen.Packet(r, t, gen.RandomMask(r, t), gen.Small, gen.Domain{})
+				foreign := ref.PropTable[r.Intn(len(ref.PropTable))]
+				x := ref.Prop{ID: foreign.ID, N: gen.VBI(r) % 200, S: "fs", V: "fv", B: []byte("fb")}
+				if foreign.Kind == ref.KBool {
+					x.N = 1
+				}
+				a.Props = append(a.Props, x)
+				a.Props = gen.Permute(r, a.Props)
+				f, _ = ref.Encode(a)
+			} else {
+				g := genFrame(r, gen.Small)
+				if h, err := ref.ParseHeader(g.Bytes); err == nil {
+					f = ref.Reframe(firstByteFor(r, 1+r.Intn(15)), g.Bytes[h.HdrLen:])
+				}
+			}
+			trail = append(trail, "ReadPacket(odd frame "+hexClip(f, 24)+")")
+			libRead(f)
+			c.Eval(1)
+			if !check(-1, "decode-odd-frame") {
 				return
 			}
 		case 4: // the reference frame decodes as it did at the start
